@@ -303,23 +303,23 @@ func oracleC05(c ECase, outs []drv.ObsOut) string {
 }
 
 func runC05(args []string) error {
-	f := newFlags("c05")
-	if err := f.parse(args); err != nil {
+	f := drv.NewFlags("c05")
+	if err := f.Parse(args); err != nil {
 		return err
 	}
-	r := drv.NewRng(*f.seed)
+	r := drv.NewRng(*f.Seed)
 	var cases []ECase
-	if *f.replay != "" {
-		if err := drv.ReadJSON(*f.replay, &cases); err != nil {
+	if *f.Replay != "" {
+		if err := drv.ReadJSON(*f.Replay, &cases); err != nil {
 			return err
 		}
 	} else {
 		cases = latticeCases()
-		for i := 0; i < *f.n; i++ {
+		for i := 0; i < *f.N; i++ {
 			cases = append(cases, genECase(r))
 		}
 	}
-	rep := Report{Property: "C05", Seed: *f.seed, Shard: ShardSize, Stats: map[string]int{}, Cases: len(cases),
+	rep := drv.Report{Property: "C05", Seed: *f.Seed, Shard: drv.ShardSize, Stats: map[string]int{}, Cases: len(cases),
 		Rule: "election scripts: all ordered pairs over the 6x6 boundary lattice of (high,low) words plus random multi-session scripts; non-trivial = at least two accepted announcements with different ids, distinct by the announced id sequence"}
 	var coq []string
 	distinct := map[string]bool{}
@@ -329,7 +329,7 @@ func runC05(args []string) error {
 			return err
 		}
 		if p := oracleC05(c, outs); p != "" {
-			rep.Violations = append(rep.Violations, Verdict{Case: i, Problem: p})
+			rep.Violations = append(rep.Violations, drv.Verdict{Case: i, Problem: p})
 		}
 		hs, os := []string{}, []string{}
 		key := ""
@@ -361,11 +361,11 @@ func runC05(args []string) error {
 		}
 	}
 	rep.Nontrivial = len(distinct)
-	if err := drv.WriteJSON(*f.out+"/cases.json", cases); err != nil {
+	if err := drv.WriteJSON(*f.Out+"/cases.json", cases); err != nil {
 		return err
 	}
-	if err := writeCasesV(*f.out, "From Coq Require Import List NArith.\nFrom GV.Server Require Import Model Obs InstUnit.\nImport ListNotations.", "ucase", "umismatches", coq); err != nil {
+	if err := drv.WriteCasesV(*f.Out, "From Coq Require Import List NArith.\nFrom GV.Server Require Import Model Obs InstUnit.\nImport ListNotations.", "ucase", "umismatches", coq); err != nil {
 		return err
 	}
-	return drv.WriteJSON(*f.out+"/impl.json", rep)
+	return drv.WriteJSON(*f.Out+"/impl.json", rep)
 }
